@@ -63,6 +63,8 @@ def run_check(pid: str, tier: str, seed: int, only_defs=None, replay_mode=False)
     build_failures = {}   # (config, k) -> rustc message
     fatal = None
     crates = []
+    probe_cfgs = [c for c in configs if c.get("kind") == "genprobe"]
+    configs = [c for c in configs if c.get("kind") != "genprobe"]
     for cfg in configs:
         cc = R.CorpusCrate(cfg["name"], features=cfg.get("features", ("derive",)), nshards=cfg.get("nshards", 8),
                            extra_deps=cfg.get("extra_deps", ""), crate_attrs=cfg.get("crate_attrs", ""),
@@ -88,11 +90,29 @@ def run_check(pid: str, tier: str, seed: int, only_defs=None, replay_mode=False)
             build_failures[(cfg["name"], k)] = msg
     corpus_path = corpus.write()
     if not fatal:
-        for cfg, cc in crates:
+        for cfg, cc in list(crates):
             obs, died = cc.run(corpus_path)
             impl[cfg["name"]] = obs
             for (b, rc, err) in died:
                 notes.append("corpus binary %s exited with %s: %s" % (os.path.basename(b), rc, err[-300:]))
+
+    for cfg in probe_cfgs:
+        if fatal:
+            break
+        binp, err = R.build_genprobe()
+        if binp is None:
+            fatal = "genprobe (the generator sources of /repo compiled as a library) does not build: " + err
+            break
+        lines = []
+        for (n, k, kind, args, note) in corpus.queries:
+            cmd = mod.probe_command(corpus, n, k, kind, args)
+            if cmd is not None:
+                lines.append(cmd)
+        obs, died = R.run_genprobe(binp, lines, os.path.join(R.WORK, pid))
+        impl[cfg["name"]] = obs
+        for (b, rc_, err) in died:
+            notes.append("genprobe shard %s exited with %s: %s" % (os.path.basename(b), rc_, err[-300:]))
+        crates.append((cfg, None))
 
     # ---- 4. model side
     model = R.run_model(corpus_path, mod.MODEL_ARGS if hasattr(mod, "MODEL_ARGS") else ())
@@ -117,12 +137,15 @@ def run_check(pid: str, tier: str, seed: int, only_defs=None, replay_mode=False)
         for cfg, cc in crates:
             cfgname = cfg["name"]
             flt = cfg.get("filter")
+            is_probe = cfg.get("kind") == "genprobe"
             for (n, k, kind, args, note) in corpus.queries:
                 if flt and not flt(k, corpus.meta[k]):
                     continue
                 if (cfgname, k) in build_failures:
                     continue
                 if hasattr(mod, "query_in_config") and not mod.query_in_config(cfg, kind, args):
+                    continue
+                if is_probe and mod.probe_command(corpus, n, k, kind, args) is None:
                     continue
                 mobs = model.get(n)
                 iobs = impl[cfgname].get(n)
@@ -152,6 +175,12 @@ def run_check(pid: str, tier: str, seed: int, only_defs=None, replay_mode=False)
                                        "query": "%s %s" % (kind, " ".join(args)), "note": note,
                                        "observed": iobs[:2000], "expected": mobs[:2000], "detail": detail,
                                        "family": corpus.meta[k].get("family")})
+
+    extra_info = {}
+    if not fatal and hasattr(mod, "extra_checks"):
+        ev, nev, extra_info = mod.extra_checks(corpus, tier, model, impl)
+        violations.extend(ev)
+        evaluations += nev
 
     # ---- 6. report
     known = R.load_known_findings()
@@ -190,7 +219,9 @@ def run_check(pid: str, tier: str, seed: int, only_defs=None, replay_mode=False)
         R.log("proof obligations broken as well: %s" % coq["problems"])
 
     if not replay_mode:
-        programs = sum(len(cc.mods) - len(cc.failed) for _, cc in crates)
+        programs = sum(len(cc.mods) - len(cc.failed) for _, cc in crates if cc is not None)
+        if probe_cfgs:
+            programs += len(corpus.defs) or 1
         cov = {
             "obligations": coq.get("obligations", 0), "discharged": coq.get("discharged", 0),
             "checker_cmd": "make -C coq %s (coqc 8.16.1) + Print Assumptions on %s" % (mod.PROP_FILE[:-2] + ".vo", ", ".join(mod.THEOREMS)),
@@ -203,6 +234,7 @@ def run_check(pid: str, tier: str, seed: int, only_defs=None, replay_mode=False)
             "histogram": hist, "build_failures_expected": len(build_failures) - sum(1 for v in violations if v["kind"] == "build-failure"),
             "configs": [c["name"] for c in configs], "notes": notes,
         }
+        cov.update(extra_info)
         if hasattr(mod, "extra_coverage"):
             cov.update(mod.extra_coverage(corpus, tier))
         R.write_evidence(pid, tier, seed, cov, list(getattr(mod, "ASSUMPTIONS", [])), reported)
